@@ -156,6 +156,23 @@ func cmdCheck(args []string) int {
 		writeEvidenceError(outDir, *prop, *tier, seed, "no contracts", time.Since(t0).Seconds())
 		return 2
 	}
+	// every function of the baseline must still be under contract
+	missing := 0
+	for fn := range base.Props[*prop] {
+		if strings.HasPrefix(fn, "lemma:") {
+			continue
+		}
+		found := false
+		for _, k := range keys {
+			if k == fn {
+				found = true
+			}
+		}
+		if !found {
+			fmt.Printf("UNDECIDED property=%s function=%s reason=%q\n", *prop, fn, "under contract in the baseline but no longer found in the program")
+			missing++
+		}
+	}
 	type fr struct {
 		res *FuncResult
 		vcs []*VC
@@ -179,6 +196,9 @@ func cmdCheck(args []string) int {
 
 	// verdicts
 	exit := 0
+	if missing > 0 {
+		exit = 2
+	}
 	nObl, nDis, nKnown, nVac, nVacOK := 0, 0, 0, 0, 0
 	bySolver := map[string]int{}
 	var solverS float64
